@@ -14,7 +14,7 @@ TEXT = {
  'C11': ('exploration', 'Raise-position generation (sync/async, raise vs returned exception, before/after suspension, parents/children/forwarded buses) x schedules; same exception object recorded, everything else delivered exactly once, await never raises, accessors raise iff raise_if_any.', '7 C11'),
  'C13': ('exploration', 'History search with small max_history_size; length bound after every dispatch / processing step and eviction victims compared with a history model.', '7 C13'),
  'C14': ('exploration', 'Flood histories from callers and from inside handlers crossing the 50-queued / 100-in-flight limits; accept-or-raise, rejected leaves no trace, parents complete, accepted delivered once.', '7 C14'),
- 'C15': ('exploration', 'wait_until_idle raced against external/nested/forwarded dispatches and the 0.1 s polls, after fault histories; bus state at the return instant, and return within 5 virtual seconds of idleness.', '7 C15'),
+ 'C15': ('exploration', 'wait_until_idle raced against external/nested/forwarded dispatches and the 0.1 s polls, after fault histories; bus state at the return instant, and return within 0.5 virtual seconds (plus injected stall / CPU-burn time) of idleness - no late return is excused since the F28 repair (c5c063c).', '7 C15'),
  'C16': ('fault_enumeration', 'stop() / run-loop cancel / cancel-all (what asyncio.run() does at exit) injected immediately before callback step k of base runs: random k plus an enumeration profile that walks k = 1..256 over one base run (256 consecutive seeds); bounded return, no handler start afterwards, cancelled tasks terminate.', '7 C16'),
  'C17': ('fault_enumeration', 'WAL on a simulated in-memory file system with latency: every write call vs the WAL model (one faithful line per processing, in order, after the handlers) fault-free; mkdir/open/write/short-write/close faults at random op indexes plus an enumeration profile placing a fault at every I/O op index 0..63 of a base run: processing unaffected, one error report per failed attempt, every complete line intact and round-tripping.', '7 C17'),
  'C18': ('exploration', 'Event streams x filters x timeouts x concurrent expects x cancellation steps; returned event admissible w.r.t. the processing record, exact timeout, handler registry restored.', '7 C18'),
